@@ -97,7 +97,10 @@ func runC10(rc *RC) {
 	useDeadline := ch.Chance("workload", 1, 3)
 	deadlineIn := time.Duration(ch.Range("workload", 1, 100)) * 100 * time.Millisecond
 	nPings := ch.Range("workload", 0, 3)
-	rc.Describe("ws=%v strategy=%s s2s=%v plain=%v chunk=%v closers=%d senders=%d peer=%d@%v deadline=%v/%v pings=%d pause=%d", opts.WS, strat, opts.S2S, opts.Plain, opts.Chunk, nClosers, nSenders, peerProg, peerAt, useDeadline, deadlineIn, nPings, rc.S.PausePerm)
+	// SetCloseDeadline without a Close of our own: the deadline alone must end Serve and close both directions
+	deadlineOnly := useDeadline && ch.Chance("workload", 1, 3)
+	latePing := deadlineOnly && ch.Chance("workload", 1, 2)
+	rc.Describe("deadlineOnly=%v latePing=%v ws=%v strategy=%s s2s=%v plain=%v chunk=%v closers=%d senders=%d peer=%d@%v deadline=%v/%v pings=%d pause=%d", deadlineOnly, latePing, opts.WS, strat, opts.S2S, opts.Plain, opts.Chunk, nClosers, nSenders, peerProg, peerAt, useDeadline, deadlineIn, nPings, rc.S.PausePerm)
 	rc.CaseKey = fmt.Sprint(nClosers, nSenders, peerProg, useDeadline, opts)
 
 	var calls []*txCall
@@ -139,6 +142,9 @@ func runC10(rc *RC) {
 				deadlineSetStep = rc.S.Steps
 				e.Sess.SetCloseDeadline(time.Now().Add(deadlineIn))
 			}
+			if deadlineOnly {
+				return
+			}
 			for k := 0; k < times; k++ {
 				c := &closeCall{inv: rc.S.Steps}
 				closes = append(closes, c)
@@ -176,6 +182,12 @@ func runC10(rc *RC) {
 		for i := 0; i < nPings; i++ {
 			simrt.Sleep(time.Duration(ch.Range("workload", 0, 10)) * 40 * time.Millisecond)
 			e.PeerWrite(fmt.Sprintf(`<message id="ping%d" from="peer@example.net"><body>x</body></message>`, i))
+		}
+		if latePing {
+			// an element that arrives after the deadline has passed (on transports without read deadlines this is what makes Serve notice)
+			simrt.WaitUntil("peer:deadline-set", func() bool { return deadlineAt >= 0 })
+			simrt.Sleep(deadlineAt + 50*time.Millisecond - rc.S.Now())
+			e.PeerWrite(`<message id="late" from="peer@example.net"><body>x</body></message>`)
 		}
 		switch peerProg {
 		case 0:
@@ -293,7 +305,7 @@ func runC10(rc *RC) {
 		rc.Evals["C10.c4"]++
 		if peerActed {
 			rc.Failf("C10.c4", fmt.Sprintf("serve-not-returned:peer%d", peerProg), "peer program %d acted at step %d but Serve has not returned (status %v, stuck %v)", peerProg, peerActedStep, st, rc.S.Stuck())
-		} else if deadlineAt >= 0 && !opts.Plain && rc.S.Now() > deadlineAt+time.Minute {
+		} else if deadlineAt >= 0 && (!opts.Plain || latePing) && rc.S.Now() > deadlineAt+time.Minute {
 			rc.Failf("C10.c4", "serve-not-returned:deadline", "close deadline %v passed (now %v, set at step %d) on a deadline-capable transport but Serve has not returned; stuck %v", deadlineAt, rc.S.Now(), deadlineSetStep, rc.S.Stuck())
 		}
 	}
